@@ -24,7 +24,15 @@ def scenarios(tier):
     for wk, rk in ((5, 4), (4, 5), (2, 5), (2, 4)):
         s.append(Scenario('mt-iter-erase%d-vs-lookup%d-K2' % (wk, rk), SRC, BASE + ['MODE=3', 'WK=%d' % wk, 'RK=%d' % rk], threads=2, K=2, unwind=6,
                           unwind_map=UM, max_recursion=140, cover=[1, 2]))
+    # exclusivity: two erasures through one iterator vs a writer inserting into the same bucket (the writer spins on the bucket lock:
+    # executions with more than U spins inside one window are outside the bound)
+    s.append(Scenario('mt-iter-erase5-erase4-vs-emplace6-K2', SRC, BASE + ['MODE=4', 'WK=5'], threads=2, K=2, unwind=6, unwind_map=UM, max_recursion=140,
+                      cover=[1, 2], allow_unwound=True))
     if tier == 'thorough':
+        s.append(Scenario('mt-iter-erase5-erase4-vs-emplace6-K3', SRC, BASE + ['MODE=4', 'WK=5'], threads=2, K=3, unwind=6, unwind_map=UM, max_recursion=140,
+                          cover=[1, 2], allow_unwound=True))
+        s.append(Scenario('mt-iter-erase2-erase-vs-emplace6-K2', SRC, BASE + ['MODE=4', 'WK=2'], threads=2, K=2, unwind=6, unwind_map=UM, max_recursion=140,
+                          cover=[1, 2], allow_unwound=True))
         s.append(Scenario('seq-traverse-erase-6keys', SRC, BASE + ['MODE=1', 'NKEYS=6'], unwind=9, sym_loop_cap=400, max_recursion=140, prune=True, cover=[1]))
         for wk, rk in ((5, 4), (2, 5), (6, 4), (1, 3)):
             s.append(Scenario('mt-iter-erase%d-vs-lookup%d-K3' % (wk, rk), SRC, BASE + ['MODE=3', 'NKEYS=6', 'WK=%d' % wk, 'RK=%d' % rk], threads=2, K=3, unwind=6,
